@@ -3158,6 +3158,13 @@ lys_compile_node_leaflist(struct lysc_ctx *ctx, struct lysp_node *pnode, struct 
         return LY_EVALID;
     }
 
+    if (LY_ARRAY_COUNT(llist_p->dflts) > llist->max) {
+        /* the default values are used all together if there are no instances, they would always violate max-elements */
+        LOGVAL(ctx->ctx, LYVE_SEMANTICS, "Leaf-list number of default values %" LY_PRI_ARRAY_COUNT_TYPE
+                " is bigger than max-elements %" PRIu32 ".", LY_ARRAY_COUNT(llist_p->dflts), llist->max);
+        return LY_EVALID;
+    }
+
 done:
     return ret;
 }
